@@ -67,10 +67,12 @@ def ob_state(kinds, names, sym):
         got = refs.ref_matrix(res.vec, B)
         ref = kron_all([dms[i] for i in order])
         out = [Eq("density matrix == kron of factors in ascending name order", got, ref, 1e-8),
-               Eq("the result's own to_density_matrix() (its composite system's basis) == the same Kronecker product", res.to_density_matrix(), ref, 1e-8),
                Holds("composite system sorted by name", [e.name for e in res.composite_system.elemental_systems] == sorted(names))]
-        Bl = qenv.dense_basis(res.composite_system)
-        out.append(Eq("basis of the result's composite system == product basis in ascending name order", np.array(Bl, dtype=object), np.array(B, dtype=object), 1e-9))
+        if k <= 3:
+            # the result's OWN composite system (its basis, and the density matrix computed with it); four factors: 256 basis matrices, skipped
+            out.append(Eq("the result's own to_density_matrix() (its composite system's basis) == the same Kronecker product", res.to_density_matrix(), ref, 1e-8))
+            Bl = qenv.dense_basis(res.composite_system)
+            out.append(Eq("basis of the result's composite system == product basis in ascending name order", np.array(Bl, dtype=object), np.array(B, dtype=object), 1e-9))
         if k == 3 and sym != "all":
             # grouping: (a x b) x c == a x (b x c)
             alt = tensor_product(sts[0], tensor_product(sts[1], sts[2]))
@@ -152,8 +154,18 @@ def ob_gate(kinds, names, sym, pick):
         res = tensor_product(*gs)
         order = sorted(range(k), key=lambda i: names[i])
         ref = kron_all([hss[i] for i in order])
-        return [Eq("HS(result) == kron of the factors' HS in ascending name order", res.hs, ref, 1e-8),
-                Holds("composite system sorted by name", [e.name for e in res.composite_system.elemental_systems] == sorted(names))]
+        out = [Eq("HS(result) == kron of the factors' HS in ascending name order", res.hs, ref, 1e-8),
+               Holds("composite system sorted by name", [e.name for e in res.composite_system.elemental_systems] == sorted(names))]
+        if k == 3:
+            # other groupings, formed in the same process AFTER the flat call, and the reversed pair order: same operator
+            alt1 = tensor_product(gs[0], tensor_product(gs[1], gs[2]))
+            alt2 = tensor_product(tensor_product(gs[0], gs[1]), gs[2])
+            out.append(Eq("a x (b x c) == flat call", alt1.hs, res.hs, 1e-8))
+            out.append(Eq("(a x b) x c == flat call", alt2.hs, res.hs, 1e-8))
+        if k == 2:
+            rev = tensor_product(gs[1], gs[0])
+            out.append(Eq("b x a (arguments swapped, formed after a x b) == a x b", rev.hs, res.hs, 1e-8))
+        return out
     n = DIM1[kinds[sym]] ** 2
     return FnOb(reals("h", n * n, -10.0, 10.0), run)
 
@@ -196,6 +208,40 @@ def ob_mprocess(names, m1name, m2name, sym):
     for j in range(nsym):
         inp += reals(f"h{j}_", 16, -10.0, 10.0)
     return FnOb(inp, run)
+
+
+def ob_ensemble(names):
+    """tensor product of two state ensembles produced by measurements with different outcome counts (2 and 3) on two qubits: in the
+    layout the result reports, the state at (a, b) is rho_A[a] (x) rho_B[b] (Kronecker factors in ascending subsystem name) and the
+    probability stored at (a, b) is p_A(a) p_B(b) (symbolic input state on subsystem A)"""
+    def run(I):
+        from quara.objects.operators import tensor_product, compose_qoperations as comp
+        cA, cB = single_csys("Q", names[0]), single_csys("Q", names[1])
+        libk = objlib.mprocess_kraus("Q1")
+        mA = mk_mprocess(cA, [objlib.hs_from_kraus(ks, "Q1") for ks in libk["z_then_U"]])
+        mB = mk_mprocess(cB, [objlib.hs_from_kraus(ks, "Q1") for ks in libk["trine3"]])
+        t = I["t"]
+        vA = tomo_lib.dm_to_vec(tomo_lib.state_mats("Q1")[4], "Q1") * (1 - t) + tomo_lib.dm_to_vec(tomo_lib.state_mats("Q1")[2], "Q1") * t
+        vB = tomo_lib.dm_to_vec(tomo_lib.state_mats("Q1")[3], "Q1")
+        eA = comp(mA, mk_state(cA, vA))
+        eB = comp(mB, mk_state(cB, vB))
+        res = tensor_product(eA, eB)
+        pA, pB = list(flat(eA.prob_dist.ps)), list(flat(eB.prob_dist.ps))
+        order = sorted(range(2), key=lambda i: names[i])
+        # ensembles report their outcome shape in ARGUMENT order (first ensemble's outcomes slow); states and probabilities share that
+        # layout, the state itself lives on the composite system sorted by name
+        out = [Holds("reported shape == (outcomes of the first ensemble, outcomes of the second)", tuple(res.prob_dist.shape) == (2, 3))]
+        for a in range(2):
+            for b in range(3):
+                idx = (a, b)
+                out.append(Eq(f"probability at {idx} == p_A({a}) p_B({b})", res.prob_dist[idx], pA[a] * pB[b], 1e-9))
+                stA, stB = eA.state(a), eB.state(b)
+                factors = [stA, stB]
+                ref = kron_all([refs.ref_matrix(factors[i].vec, SINGLE["Q"]) for i in order])
+                Bj, _ = sorted_basis("QQ", list(names))
+                out.append(Eq(f"state at {idx} == rho_A[{a}] (x) rho_B[{b}]", refs.ref_matrix(res.state(idx).vec, Bj), ref, 1e-8))
+        return out
+    return FnOb([("t", "real", 0.1, 0.9)], run, max_paths=60, expect_nonlinear=True, eager_ite=True)
 
 
 def ob_basis(kinds):
@@ -405,6 +451,7 @@ def obligations(tier):
     for names in ([0, 1], [1, 0]):
         for sym in tiers(tier, (1,), (0, 1)):
             out += specs("C07.mprocess", [{"names": names, "m1name": "trine3", "m2name": "z_then_U", "sym": sym}], ob_mprocess, 4)
+    out += specs("C07.ensemble", [{"names": [0, 1]}, {"names": [1, 0]}], ob_ensemble, 4)
     out += specs("C07.basis", [{"kinds": kd} for kd in ("QQ", "QT", "TQ", "QQQ")], ob_basis, 0.5)
     return out
 
